@@ -38,3 +38,5 @@ def run(check):
     check.run_rule('C19.R4b', lambda c: rule_hint_protocol(c, 'C19.R4'))
     # bound positionals disappear: consumption order and trip count of the mask
     check.run_rule('C19.R2c', lambda c: rule_mask_consume(c, M.mask(), 'C19.R2'))
+    from ..rules_derived import rule_partial_binding_validated
+    check.run_rule('C19.R6', lambda c: rule_partial_binding_validated(c, 'C19.R6'))
